@@ -392,7 +392,7 @@ HEADER = """From Coq Require Import List ZArith Bool PArith.
 From Krrood Require Import Base.Sx Diagram.Ty Diagram.FieldKindSpec Diagram.DiagramSpec Gen.FieldKind Diagram.Diagram Diagram.SubDiagram.
 Import ListNotations. Local Open Scope positive_scope.
 Definition F (n : positive) (pr : bool) (t : ty) (d df : bool) : fdecl := Build_fdecl n pr t d df.
-Definition D (n : positive) (k : dkind) (bs : list name) (fs : list fdecl) : decl := Build_decl n k bs fs.
+Definition D (n : positive) (k : dkind) (bs : list name) (fs : list fdecl) (hid : list name) : decl := Build_decl n k bs fs hid.
 Definition S (t : nat) (b : bool) := OpSub t b.
 Definition Cp (t : nat) := OpCopy t.
 Definition Q (t : nat) := OpQuery t QNodes.
@@ -406,7 +406,7 @@ HEADER_SPEC = """From Coq Require Import List ZArith Bool PArith.
 From Krrood Require Import Base.Sx Diagram.Ty Diagram.FieldKindSpec Diagram.DiagramSpec.
 Import ListNotations. Local Open Scope positive_scope.
 Definition F (n : positive) (pr : bool) (t : ty) (d df : bool) : fdecl := Build_fdecl n pr t d df.
-Definition D (n : positive) (k : dkind) (bs : list name) (fs : list fdecl) : decl := Build_decl n k bs fs.
+Definition D (n : positive) (k : dkind) (bs : list name) (fs : list fdecl) (hid : list name) : decl := Build_decl n k bs fs hid.
 Definition case_sx (p : prog) (cs : list name) (ops : list nat) : sx :=
   SL [SB (wf_prog p && wf_classes p cs); spec_sx p cs]."""
 
@@ -468,7 +468,8 @@ def prog_coq(decls, ids) -> str:
         fs = "; ".join(
             f"F {ids[f['name']]} {cb(f['name'].startswith('_'))} {ty_coq(tt(f['ann']), ids)} "
             f"{cb(f['default'] == 'value')} {cb(f['default'] == 'factory')}" for f in d["fields"])
-        ds.append(f"D {ids[d['name']]} {kind} [{'; '.join(str(ids[b]) for b in d['bases'])}] [{fs}]")
+        hid = "; ".join(str(ids[h]) for h in d.get("hidden", []))
+        ds.append(f"D {ids[d['name']]} {kind} [{'; '.join(str(ids[b]) for b in d['bases'])}] [{fs}] [{hid}]")
     return "[" + ";\n   ".join(ds) + "]"
 
 
@@ -535,6 +536,10 @@ def gen_ann(rng, targets_cls, targets_enum, earlier, variant, unsupported=False)
     return ("T", leaf)
 
 
+def _leaf(t):
+    return t if t[0] in ("B", "C", "E", "F", "Bare") else _leaf(t[-1])
+
+
 def gen_program(rng, stream: str) -> dict:
     """stream: 'F' (inside the theorem's fragment), 'shared' (field names shared between classes), 'override'
     (a subclass re-declares an inherited field), 'unsupported' (documented-unsupported annotation forms)."""
@@ -584,6 +589,26 @@ def gen_program(rng, stream: str) -> dict:
             earlier.append(d["name"])
         if not mro_ok(decls):
             continue
+        if stream == "shared":
+            # a name may be shared by unrelated classes only: no class sees it from two of its ancestors-or-self
+            clash = False
+            for d in decls:
+                if d["kind"] == "dataclass":
+                    names = [f["name"] for a in (anc[d["name"]] | {d["name"]}) for f in allf[a]]
+                    clash = clash or len(names) != len(set(names))
+            if clash:
+                continue
+        if stream == "typecheck":
+            # the first k declarations form a module that sees the rest only under TYPE_CHECKING
+            if any(len(d["bases"]) > 1 for d in decls) or len(decls) < 2:
+                continue
+            k = rng.randint(1, len(decls) - 1)
+            later = [d["name"] for d in decls[k:]]
+            used = any(ty_has(tt(f["ann"]), "F") and _leaf(tt(f["ann"]))[1] in later for d in decls[:k] for f in d["fields"])
+            if not used:
+                continue
+            for d in decls[:k]:
+                d["hidden"] = list(later)
         if stream == "override":
             # overriding in a diamond is outside even the sampled class (dataclasses and get_type_hints disagree there)
             over = any(f["name"] in [g["name"] for a in anc[d["name"]] for g in allf[a]] for d in decls
@@ -617,12 +642,22 @@ def gen_program(rng, stream: str) -> dict:
 
 def finish_case(case: dict) -> dict:
     case["ids"] = make_ids(case["decls"])
-    case["modules"] = [{"name": "c17_scratch", "source": render_module(case["decls"], case["variant"], "c17_scratch")}]
+    first = [d for d in case["decls"] if d.get("hidden")]
+    if first:
+        # classes with hidden names live in c17_m1, which imports the others under TYPE_CHECKING only
+        k = max(i for i, d in enumerate(case["decls"]) if d.get("hidden")) + 1
+        m1, m2 = case["decls"][:k], case["decls"][k:]
+        hidden = sorted({h for d in m1 for h in d.get("hidden", [])})
+        imp1 = "if TYPE_CHECKING:\n    from c17_m2 import " + ", ".join(hidden)
+        case["modules"] = [{"name": "c17_m1", "source": render_module(m1, case["variant"], "c17_m1", imp1)},
+                           {"name": "c17_m2", "source": render_module(m2, case["variant"], "c17_m2", "from c17_m1 import *")}]
+    else:
+        case["modules"] = [{"name": "c17_scratch", "source": render_module(case["decls"], case["variant"], "c17_scratch")}]
     return case
 
 
 # ---------------------------------------------------------------------------------------- classification sweep
-def enum_annotations() -> List[tuple]:
+def enum_annotations(depth: int = 2) -> List[tuple]:
     """every annotation of the grammar (supported and unsupported constructors) up to depth 2, in typing's normal form"""
     leaves = [("B", i) for i in range(6)] + [("C", "C1"), ("C", "P1"), ("E", "E1"), ("F", "C1"), ("F", "E1")] + \
              [("Bare", o) for o in (4, 5, 6, 7, 8, 9)]
@@ -640,6 +675,9 @@ def enum_annotations() -> List[tuple]:
     d1 = [w for t in leaves for w in wraps(t)]
     # Union[None, T] / T | None nested in another generic is not observable: typing's generic cache identifies it with Optional[T]
     d2 = [w for t in d1 if t[0] not in ("OL", "P") for w in wraps(t)]
+    if depth >= 3:
+        d3 = [w for t in d2 if t[0] not in ("OL", "P") for w in wraps(t)]
+        return leaves + d1 + d2 + d3
     return leaves + d1 + d2
 
 
@@ -663,7 +701,10 @@ def classify_case(anns: List[tuple]) -> dict:
 
 # ---------------------------------------------------------------------------------------- running cases
 def run_worker_batch(cases: List[dict], tag: str, procs: int = 8) -> List[dict]:
+    import shutil
     SCRATCH.mkdir(parents=True, exist_ok=True)
+    for old in SCRATCH.glob(f"w_{tag}_*"):
+        shutil.rmtree(old, ignore_errors=True)
     names = []
     for i, c in enumerate(cases):
         n = f"w_{tag}_{i:04d}"
@@ -696,7 +737,12 @@ def run_worker_batch(cases: List[dict], tag: str, procs: int = 8) -> List[dict]:
 
 
 def snippet(case) -> str:
-    src = case["modules"][0]["source"]
+    if len(case["modules"]) == 1:
+        src = case["modules"][0]["source"]
+    else:
+        src = "import os, sys, tempfile\nd = tempfile.mkdtemp(); sys.path.insert(0, d)\n" + "".join(
+            f"open(os.path.join(d, {m['name'] + '.py'!r}), 'w').write({m['source']!r})\n" for m in case["modules"]) + \
+            "from c17_m1 import *\nfrom c17_m2 import *\n"
     classes = ", ".join(case["classes"])
     lines = [src, "from krrood.class_diagrams.class_diagram import ClassDiagram", "import copy",
              f"cd = ClassDiagram([{classes}])",
@@ -711,8 +757,8 @@ def snippet(case) -> str:
 
 
 # ---------------------------------------------------------------------------------------- classification check
-def check_classification(rep, model_ok: bool, kf_classes: set) -> Dict[str, Any]:
-    anns = enum_annotations()
+def check_classification(rep, model_ok: bool, kf_classes: set, depth: int = 2) -> Dict[str, Any]:
+    anns = enum_annotations(depth)
     case = classify_case(anns)
     res = run_worker_batch([case], "classify", procs=1)[0]
     stats = {"annotations": len(anns), "in_wf_ty": 0, "union_none_first": 0, "pep604_top": 0, "mismatch_model": 0}
@@ -795,6 +841,28 @@ def stream_of(case) -> str:
 def check_diagrams(rep, cases: List[dict], model_ok: bool, kf_classes: set, tag: str = "dia") -> Dict[str, Any]:
     results = run_worker_batch(cases, tag)
     header = HEADER if model_ok else HEADER_SPEC
+    _viol, _obl = rep.violation, rep.oblige
+    seen_parts: Dict[str, int] = {}
+
+    class _Capped:
+        """at most 4 replays per part and one line per failed obligation; the rest is counted"""
+        def violation(self, replay, suffix=""):
+            k = "v:" + str(replay.get("part"))
+            seen_parts[k] = seen_parts.get(k, 0) + 1
+            if seen_parts[k] <= 4:
+                _viol(replay, suffix)
+
+        def oblige(self, name, ok, detail=""):
+            if ok:
+                return _obl(name, ok, detail)
+            seen_parts[name] = seen_parts.get(name, 0) + 1
+            if seen_parts[name] == 1:
+                _obl(name, ok, detail)
+
+        def __getattr__(self, a):
+            return getattr(real_rep, a)
+
+    real_rep, rep = rep, _Capped()
     vals = core.coq_values(PROP, header, [case_coq(c) for c in cases], chunk=20, tag=tag + "_coq")
     dist = {"cases": len(cases), "invalid": 0, "in_F": 0, "streams": {}, "variants": {}, "classes": {}, "edges_inh": 0,
             "edges_assoc": 0, "ops": 0, "sub_ops": 0, "sub_that_removed": 0, "build_raises": 0, "kf_instances": {}}
@@ -844,6 +912,9 @@ def check_diagrams(rep, cases: List[dict], model_ok: bool, kf_classes: set, tag:
                 if cls == "other" or (cls == "K_union_none_first" and (cls not in kf_classes or (model_ok and impl != model))):
                     rep.violation(dict(base, kind="counterexample", part="edges", impl=impl, spec=pyspec, model=model,
                                        explanation="differs from the independent reading in a way no listed class explains"))
+        elif st == "typecheck" and reference is not None and impl != reference and impl == [1, EXN["NameError"]] \
+                and model_ok and impl == model and "K_two_unresolved" in kf_classes:
+            dist["kf_instances"]["K_two_unresolved"] = dist["kf_instances"].get("K_two_unresolved", 0) + 1
         elif reference is not None and impl != reference:
             rep.violation(dict(base, kind="counterexample", part="edges", impl=impl, spec=reference, model=model, in_F=in_f,
                                explanation="graph encoding: [0, [nodes in order, sorted edges [kind 0 inh/1 assoc, source, target, field]]] or [1, exception]; names are numbered by case['ids']",
@@ -898,6 +969,7 @@ def check_diagrams(rep, cases: List[dict], model_ok: bool, kf_classes: set, tag:
                                "impl": dict(zip(PRED_NAMES[:9], pv)), "spec": dict(zip(PRED_NAMES[:9], sv)),
                                "case": {k: c[k] for k in ("decls", "classes", "variant")}, "python": snippet(c)})
         dist["fields_classified"] = len(items)
+    dist["suppressed_repeats"] = {k: n for k, n in seen_parts.items() if n > (4 if k.startswith("v:") else 1)}
     return dist
 
 
@@ -945,8 +1017,10 @@ def replay_finding(rep, f, model_ok: bool) -> None:
                                "spec": impl, "python": snippet(case),
                                "explanation": "the witness of a repaired finding fails again (source changed, or the view no longer drops the inherited edge)"})
             return
-    if f.cls == "K_union_none_first":
+    if f.cls in ("K_union_none_first", "K_two_unresolved"):
         still = impl != pyspec and (not model_ok or impl == model)
+        if f.cls == "K_two_unresolved":
+            still = still and impl == [1, EXN["NameError"]]
         if f.kind == "open":
             if still:
                 rep.known(f)
@@ -991,6 +1065,9 @@ def run(tier: str, seed: int, replay=None) -> int:
         rep.note("model not available; comparing the implementation with the Spec only (search for a failing input)")
     findings = core.load_findings(PROP)
     kf_open = {f.cls for f in findings if f.kind == "open"}
+    if tier == "thorough" and model_ok and replay is None:
+        rc, out = core.sh(["timeout", "900", "coqchk", "-silent", "-o", "-Q", ".", "Krrood", "Krrood.Props.C17"], cwd=core.COQ, timeout=930)
+        rep.oblige("coqchk:Props/C17.vo", rc == 0 and "Axioms: <none>" in out.replace("\n", " ").replace("  ", " "), out[-400:])
 
     if replay is not None:
         case = replay.get("case") or {}
@@ -1002,17 +1079,18 @@ def run(tier: str, seed: int, replay=None) -> int:
         return rep.finish()
 
     t0 = time.time()
-    rep.extra["classification"] = check_classification(rep, model_ok, kf_open)
+    rep.extra["classification"] = check_classification(rep, model_ok, kf_open, depth=2 if tier == "quick" else 3)
+    rep.extra["classification"]["depth"] = 2 if tier == "quick" else 3
     rep.extra["classification"]["wall_s"] = round(time.time() - t0, 1)
 
     # corpus first
     corpus = [(n, w) for n, w in load_corpus()]
     corpus_cases = [finish_case(dict(w["case"])) for n, w in corpus if not n.startswith("kf_")]
     rng = core.Rng(seed)
-    n_f, n_sh, n_ov, n_un = (70, 20, 15, 25) if tier == "quick" else (700, 150, 100, 150)
+    n_f, n_sh, n_ov, n_un, n_tc = (150, 30, 20, 40, 40) if tier == "quick" else (4000, 700, 400, 700, 700)
     cases = list(corpus_cases)
-    for stream, n in (("F", n_f), ("shared", n_sh), ("override", n_ov), ("unsupported", n_un)):
-        r = rng.fork(hash(stream) & 0xFFFF if False else {"F": 1, "shared": 2, "override": 3, "unsupported": 4}[stream])
+    for stream, n in (("F", n_f), ("shared", n_sh), ("override", n_ov), ("unsupported", n_un), ("typecheck", n_tc)):
+        r = rng.fork({"F": 1, "shared": 2, "override": 3, "unsupported": 4, "typecheck": 5}[stream])
         for _ in range(n):
             cases.append(gen_program(r, stream))
     t1 = time.time()
